@@ -354,7 +354,11 @@ func c04RunCfg(rep *vh.Report, c c04Cfg, W int64, quick bool) {
 	}
 	if c.start == 0 {
 		// far future (2042): products of media time and a 90 kHz timescale pass 2^63 after 2037
-		ns = append(ns, int64(2_300_000_000_000)/(a.LoopMS/int64(len(a.Ref.Segs))))
+		farN := int64(2_300_000_000_000) / (a.LoopMS / int64(len(a.Ref.Segs)))
+		if lim := int64(1)<<32 - 1000; farN > lim {
+			farN = lim // sequence numbers are 32 bits: beyond that there is no such segment (404, see the alias clause)
+		}
+		ns = append(ns, farN)
 	}
 	for _, n := range ns {
 		name, lo, hi := c04Times(a, r, c, n)
